@@ -145,6 +145,7 @@ func (d *DCS) ReleaseLock(path string) {
 
 func (d *DCS) put(path string, val any, eph bool, create bool) error {
 	w := d.T.W
+	w.BlipSleep()
 	w.Mu.Lock()
 	defer w.Mu.Unlock()
 	path = norm(path)
@@ -201,6 +202,7 @@ func (d *DCS) SetEphemeral(path string, value any) error    { return d.put(path,
 
 func (d *DCS) Get(path string, dest any) error {
 	w := d.T.W
+	w.BlipSleep()
 	w.Mu.Lock()
 	defer w.Mu.Unlock()
 	path = norm(path)
@@ -223,6 +225,7 @@ func (d *DCS) Get(path string, dest any) error {
 
 func (d *DCS) Delete(path string) error {
 	w := d.T.W
+	w.BlipSleep()
 	w.Mu.Lock()
 	defer w.Mu.Unlock()
 	path = norm(path)
@@ -271,6 +274,7 @@ func (d *DCS) children(path string) []string {
 
 func (d *DCS) GetChildren(path string) ([]string, error) {
 	w := d.T.W
+	w.BlipSleep()
 	w.Mu.Lock()
 	defer w.Mu.Unlock()
 	path = norm(path)
@@ -289,6 +293,7 @@ func (d *DCS) GetChildren(path string) ([]string, error) {
 
 func (d *DCS) GetTree(path string) (any, error) {
 	w := d.T.W
+	w.BlipSleep()
 	w.Mu.Lock()
 	defer w.Mu.Unlock()
 	path = norm(path)
